@@ -287,6 +287,41 @@ def g_std(files):
     return inst, sites, viol
 
 
+# ----------------------------------------------------------------------------- G-PROFILE
+
+PROFILE_IDENTS = ('debug_assertions', 'debug_assert', 'debug_assert_eq', 'debug_assert_ne', 'overflow_checks')
+
+
+def g_profile(files):
+    """the generated program must not depend on the build profile of the *user's* crate: no `cfg(debug_assertions)`,
+    `cfg!(debug_assertions)`, `debug_assert*!` (or `overflow_checks`) token inside a quote! body. The corpus is built in
+    the dev profile only, so code behind `#[cfg(not(debug_assertions))]` would never be seen by the E-level rules."""
+    inst = 0
+    viol = []
+    for f in files:
+        for (fn, a, b, line) in f.quotes:
+            inst += 1
+            for k in range(a, b):
+                t = f.toks[k]
+                if t.kind == 'ident' and t.text in PROFILE_IDENTS:
+                    viol.append({'file': f.rel, 'fn': fn, 'line': t.line, 'token': t.text,
+                                 'what': f'generated code depends on the build profile (`{t.text}`) in {f.rel}::{fn}: guards or '
+                                         f'constructions behind it are not the ones analysed in the dev profile'})
+                elif t.kind == 'ident' and t.text in ('cfg', 'cfg_attr') and k + 3 < b:
+                    # any other conditional compilation *of the generated program* (it would be evaluated in the user's
+                    # crate: target, features of that crate, ...); `cfg(test)` around the generated unit tests is the
+                    # one legitimate use and is analysed separately (test-mode corpus)
+                    nxt = [x.text for x in f.toks[k + 1:k + 5]]
+                    if nxt[:3] == ['(', 'test', ')']:
+                        continue
+                    if nxt[0] == '!' and nxt[1:4] == ['(', 'test', ')']:
+                        continue
+                    viol.append({'file': f.rel, 'fn': fn, 'line': t.line, 'token': 'cfg',
+                                 'what': f'generated code is conditionally compiled (`{t.text}{" ".join(nxt)} ..`) in {f.rel}::{fn}: '
+                                         f'only the configuration the corpus is built in is analysed'})
+    return inst, viol
+
+
 # ----------------------------------------------------------------------------- G-LWW
 
 CONST_RHS = (('ConstFn', '::', 'Const'), ('NewUnchecked', '::', 'On'), ('true',), ('false',))
